@@ -65,13 +65,13 @@ func (e mEntry) canon() string {
 }
 
 type mModel struct {
-	work       bool
-	module     string
-	goV        string
-	toolchain  string
+	work          bool
+	module        string
+	goV           string
+	toolchain     string
 	scalarTouched map[string]bool // "module", "go", "toolchain"
-	scalarID   map[string]int
-	entries    []mEntry // all kinds, in list order per kind
+	scalarID      map[string]int
+	entries       []mEntry // all kinds, in list order per kind
 }
 
 func (m *mModel) clone() *mModel {
@@ -711,13 +711,13 @@ func (r *realFile) lists() (m *mModel, zero []string) {
 // ---- starting file generator ----
 
 type genLine struct {
-	id      int
-	kind    string
-	tokens  string // directive arguments as written (without the verb)
-	lead    int    // number of leading comment lines
+	id       int
+	kind     string
+	tokens   string // directive arguments as written (without the verb)
+	lead     int    // number of leading comment lines
 	indirect bool
-	blank   bool // a blank line before
-	spacing int  // selects how the end-of-line comment is spelled
+	blank    bool // a blank line before
+	spacing  int  // selects how the end-of-line comment is spelled
 }
 
 func quoteIfNeeded(s string) string {
